@@ -75,6 +75,22 @@ def run(ctx):
     ctx.cov["distinct_nontrivial"] = len(nontrivial)
     ctx.cov["designs"] = len(pl.designs)
     ctx.cov["methods_set_aside_uncompilable"] = len(pl.bad_methods)
+    if not quick:
+        beyond_the_list(ctx)
+
+
+def beyond_the_list(ctx):
+    """Growth modules that are NOT claimed properties ride on the thorough tier: the Streaming module (WebSocket streaming
+    calls of generated code, spec/Streaming.tla, checks/streaming.py).  Whatever happens in there is evidence only
+    (ctx.cov["beyond_the_list"], ctx.notes): no verdict, no exit code of C03 depends on it."""
+    nv = len(ctx.violations)
+    try:
+        from checks import streaming
+        streaming.run_streaming(ctx)
+    except Exception as e:       # core.Infra included: trouble of that module's machinery is not trouble of C03
+        ctx.cov.setdefault("beyond_the_list", {}).setdefault("streaming", {})["did_not_finish"] = ("%s: %s" % (type(e).__name__, e))[:2000]
+        ctx.notes.append("streaming (beyond the list) did not finish: %s" % (str(e)[:300]))
+    del ctx.violations[nv:]      # (the module never files any; nothing it does may count for C03)
 
 
 def replay(ctx, rp):
